@@ -19,3 +19,15 @@ claim("C20",
       "Metamorphic + reference-model runtime monitor: every generated program over Pair/Triple/Named/tuple/Option compounds is run together with its tagged-list twin (a homomorphic encoding with constant heads) and the answers must correspond as multisets of ground-instance sets; both are also compared with the reference interpreter; FD labeling inside compound fields is covered by a dedicated generator; the C03 structural monitor runs on every answer. Held on the executions observed.",
       "Trusted: the encoding (all structure heads are constant tags, so it is a homomorphism for unification); pvmon::refsem; finite instance universe.",
       "runtime monitoring: metamorphic twin-program oracle + reference-model comparison over generated programs")
+claim("C16",
+      "Reference-model and arithmetic runtime monitor: generated FD programs (arbitrary operand aliasing, constants, signed interval and sparse domains, every posting order, hidden variables, distinctfd with repeated variables and pre-bound elements) are run on several fresh threads (different hash seeds => different constraint wake-up and labeling orders); every answer must be a brute-force solution and satisfy every constraint by direct integer arithmetic; state invariants (no variable both bound and holding a domain, no empty/singleton stored domain) are asserted at a probe after every goal and at every final state. Held on the executions observed.",
+      "Trusted: brute-force enumeration of the domain product (pvmon::refsem::label) and the direct evaluator (checks::fd::eval_flat); generator emits only well-formed programs.",
+      "runtime monitoring: brute-force reference oracle + arithmetic answer checker + state-invariant probes, repeated under several hash seeds")
+claim("C17",
+      "Reference-model runtime monitor: for the same generated FD programs, on every one of several fresh-thread runs (different hash seeds) the multiset of query-variable projections of the answers must equal the set of distinct projections of the brute-force solutions; query variables bound to integers, lists, improper lists and compound terms of FD variables; hidden FD variables; negative and mixed-sign domains. Held on the executions observed.",
+      "Trusted: brute-force enumeration of the domain product (pvmon::refsem::label).",
+      "runtime monitoring: brute-force reference oracle (multiset equality) over generated programs, repeated under several hash seeds")
+claim("C19",
+      "Reference-model runtime monitor: plusz/timesz programs run on the real engine and compared with an integer model; enumerated over every groundness pattern, literal/variable spelling, value in -3..=3 and every interleaving of the constraint with the bindings of its operands, plus random aliased and chained constraints; panics are violations. Held on the executions observed.",
+      "Trusted: the integer model with wake-on-two-ground propagation (pvmon::refsem::settle).",
+      "runtime monitoring: reference-model oracle over enumerated posting orders and generated constraint chains")
